@@ -49,14 +49,20 @@ Definition decl_fault_codes (reserved : list string) (d : decl) : list nat :=
   (if mem (d_fname d) reserved then [1] else []) ++
   (match validate_sig (d_params d) with Err _ => [2] | Ok _ => [] end).
 
-Fixpoint body_fault_codes (reserved : list string) (b : list (string * smember)) : list nat :=
+(* the first line of the body that cannot be executed decides: a decorator
+   error (any class of one of its faults), or 9 for a name that is not bound *)
+Fixpoint body_fault_codes (reserved : list string) (dicts : list (dict member))
+  (b : list (string * smember)) (ns : dict member) : list nat :=
   match b with
   | [] => []
-  | (_, SOther) :: r => body_fault_codes reserved r
-  | (_, SState d) :: r => match decl_fault_codes reserved d with
-                          | [] => body_fault_codes reserved r
-                          | l => l
-                          end
+  | (k, m) :: r =>
+    match (match m with SState d => decl_fault_codes reserved d | _ => [] end) with
+    | [] => match eval_member reserved dicts ns m with
+            | Ok v => body_fault_codes reserved dicts r (dict_set k v ns)
+            | Err _ => [9]
+            end
+    | l => l
+    end
   end.
 
 Fixpoint ns_fault_codes (osm : bool) (ns : dict member) : list nat :=
@@ -71,13 +77,22 @@ Fixpoint ns_fault_codes (osm : bool) (ns : dict member) : list nat :=
     end
   end.
 
-Definition class_allowed (reserved : list string) (osm : bool) (b : list (string * smember)) : list nat :=
-  match body_fault_codes reserved b with
-  | [] => match eval_body reserved b [] with
+Definition class_allowed (reserved : list string) (dicts : list (dict member)) (osm : bool)
+  (b : list (string * smember)) : list nat :=
+  match body_fault_codes reserved dicts b [] with
+  | [] => match eval_body reserved dicts b [] with
           | Ok ns => ns_fault_codes osm ns
           | Err _ => []
           end
   | l => l
+  end.
+
+(* the __dict__ of the classes before class [i] (all accepted when class [i]
+   is the one that raised) *)
+Definition dicts_before (reserved : list string) (cs : list classdef) (i : nat) : list (dict member) :=
+  match define_all reserved (firstn i cs) with
+  | Ok ds => ds
+  | Err _ => []
   end.
 
 (* ---- allowed error classes at instantiation ------------------------ *)
@@ -138,7 +153,8 @@ Definition h_agree (reserved : list string) (c : hcase) : bool :=
   match define_all reserved (h_classes c), h_obs c with
   | Err (i, _), HDefErr j code =>
       Nat.eqb i j &&
-      memn code (class_allowed reserved (nth i (sm_flags (h_classes c)) false)
+      memn code (class_allowed reserved (dicts_before reserved (h_classes c) i)
+                               (nth i (sm_flags (h_classes c)) false)
                                (c_body (nth i (h_classes c) empty_class)))
   | Ok dicts, HDefined insts adapters =>
       forallb2 (inst_agree dicts) (h_targets c) insts && forallb (adapter_agree dicts) adapters
